@@ -34,11 +34,12 @@ def _plan(labels):
     return plan, peer
 
 
-def scenario(sid, labels, closer, kind):
+def scenario(sid, labels, closer, kind, oc=True, hc=False):
     plan, peer = _plan(labels)
     actors = [{'name': 'closer1', 'ops': [['Close']]}] if closer else []
-    return {'id': sid, 'seed': 1, 'strategy': 'plan', 'plan': plan, 'kind': 'server', 'onconnect': True, 'ondisconnect': True, 'onrequest': True, 'onprepare': True,
-            'nclosecb': 1, 'connbody': 'return', 'handler': [{'consume': -1, 'then': 'return'}], 'actors': actors, 'peer': peer, 'holdsetup': True, 'cnkind': kind, 'closer': closer}
+    return {'id': sid, 'seed': 1, 'strategy': 'plan', 'plan': plan, 'kind': 'server', 'onconnect': oc, 'ondisconnect': True, 'onrequest': True, 'onprepare': True,
+            'nclosecb': 1, 'connbody': 'return', 'handler': [{'consume': -1, 'then': 'close' if hc else 'return'}], 'actors': actors, 'peer': peer, 'holdsetup': True,
+            'cnkind': kind, 'closer': closer, 'oc': oc, 'hc': hc}
 
 
 CE = r'^State \d+: <(\w+)(?:\((\d+)\))?'
@@ -53,18 +54,21 @@ def scenarios(sc, tier, seed):
         if len(labels) < 2:
             raise vlib.Inconclusive('no counterexample from %s' % cfg)
         scs.append(scenario('tlc-%s' % cfg[8:-4], labels, closer, kind))
-    n = 300 if tier == 'quick' else 6000
-    o, wd = tlc_run(sc, 'MC_Conn_Sim.cfg', 'sim', workers=1, extra=['-simulate', 'file=%s,num=%d' % (sc.path('cn_sim', 'b'), n), '-depth', '120', '-seed', str(seed)])
-    for i, f in enumerate(sorted(glob.glob(sc.path('cn_sim', 'b_*')))):
-        labels = re.findall(SIM, open(f).read(), re.M)
-        closer = any(l[0] == 'CloserNext' for l in labels)
-        scs.append(scenario('cnsim-%d-%d' % (seed, i), labels, closer, 'sim'))
+    for cfg, oc, hc, share in (('MC_Conn_Sim.cfg', True, False, 4), ('MC_Conn_Sim_NoOC.cfg', False, False, 2), ('MC_Conn_Sim_HC.cfg', True, True, 2), ('MC_Conn_Sim_NoOC_HC.cfg', False, True, 1)):
+        n = (40 if tier == 'quick' else 800) * share
+        tag = 'sim%d%d' % (oc, hc)
+        o, wd = tlc_run(sc, cfg, tag, workers=1, extra=['-simulate', 'file=%s,num=%d' % (sc.path('cn_' + tag, 'b'), n), '-depth', '120', '-seed', str(seed)])
+        for i, f in enumerate(sorted(glob.glob(sc.path('cn_' + tag, 'b_*')))):
+            labels = re.findall(SIM, open(f).read(), re.M)
+            closer = any(l[0] == 'CloserNext' for l in labels)
+            scs.append(scenario('cnsim%d%d-%d-%d' % (oc, hc, seed, i), labels, closer, 'sim', oc, hc))
     return scs
 
 
 def exhaustive(sc, tier):
     states = trans = 0
-    for cfg in (('MC_Conn.cfg',) if tier == 'quick' else ('MC_Conn.cfg', 'MC_Conn_Closer.cfg')):
+    for cfg in (('MC_Conn.cfg', 'MC_Conn_NoOC.cfg', 'MC_Conn_HC.cfg', 'MC_Conn_NoOC_HC.cfg') if tier == 'quick' else
+                ('MC_Conn.cfg', 'MC_Conn_NoOC.cfg', 'MC_Conn_HC.cfg', 'MC_Conn_NoOC_HC.cfg', 'MC_Conn_Closer.cfg')):
         out, _ = tlc_run(sc, cfg, cfg[:-4])
         if not vlib.tlc_ok(out):
             raise vlib.Inconclusive('Conn.tla exhaustive check (%s) did not pass: %s' % (cfg, vlib.tlc_violation(out) or out[-800:]))
@@ -74,13 +78,26 @@ def exhaustive(sc, tier):
 
 
 def impl_check(sc, runs, tag):
-    """Returns (consumed, total, rules the model itself collected on these schedules)."""
+    """Returns (consumed, total, rules the model itself collected on these schedules); one TLC run per configuration of callbacks."""
+    consumed = total = 0
+    rules = set()
+    groups = {}
+    for s, r in runs:
+        groups.setdefault((bool(s.get('oc', True)), bool(s.get('hc', False))), []).append((s, r))
+    for (oc, hc), grp in sorted(groups.items()):
+        c, t, rs = _impl_check(sc, grp, '%s_%d%d' % (tag, oc, hc), oc, hc)
+        consumed, total, rules = consumed + c, total + t, rules | rs
+    return consumed, total, rules
+
+
+def _impl_check(sc, runs, tag, oc, hc):
     wd = sc.path('cni_' + tag)
     os.makedirs(wd, exist_ok=True)
     for f in ('Conn.tla', 'TraceConnImpl.tla'):
         shutil.copy(os.path.join(vlib.SPEC, f), wd)
     open(os.path.join(wd, 'TraceConnImpl.cfg'), 'w').write(
-        'SPECIFICATION TSpec\nPOSTCONDITION Report\nCHECK_DEADLOCK FALSE\nCONSTANTS\n  MaxTasks = 8\n  MaxSend = 8\n  WithCloser = TRUE\n  Dev_NoConnRecheck = FALSE\n  Dev_NoInputRecheck = FALSE\n  Dev_NoHupTask = FALSE\n  Dev_HupLockTwice = FALSE\n')
+        'SPECIFICATION TSpec\nPOSTCONDITION Report\nCHECK_DEADLOCK FALSE\nCONSTANTS\n  MaxTasks = 8\n  MaxSend = 8\n  WithCloser = TRUE\n  WithOnConnect = %s\n  HandlerCloses = %s\n'
+        '  Dev_NoConnRecheck = FALSE\n  Dev_NoInputRecheck = FALSE\n  Dev_NoHupTask = FALSE\n  Dev_HupLockTwice = FALSE\n' % (str(oc).upper(), str(hc).upper()))
     blank = {'g': '', 'i': 0, 'pt': 0, 'k': 0, 'closer': 0, 'closing': 0, 'connecting': 0, 'processing': 0, 'st': 0, 'inlen': 0, 'opst': 1, 'det': 0}
     n = 0
     with open(os.path.join(wd, 'sched.ndjson'), 'w') as f:
